@@ -240,7 +240,12 @@ def switch_cases(fn, selector="get_kind"):
     sws = [n for n in walk(fn["body"]) if n.get("k") == "switch" and
            any(c.get("name") == selector for c in walk(n["c"]) if c.get("k") == "call")]
     if not sws:
-        raise AnalysisBroken("%s: no switch over %s()" % (fn["q"], selector))
+        # the dispatch is not a switch in this function (if-chains on a local holding the kind, kind predicates in
+        # helpers): read it kind by kind with the slicer and group the kinds that execute the same statements
+        alt = _sliced_cases(fn)
+        if alt is None:
+            raise AnalysisBroken("%s: no switch over %s()" % (fn["q"], selector))
+        return alt
     sw = max(sws, key=lambda s: sum(1 for _ in walk(s)))
     items = []
     for s in sw["body"].get("s", []):
@@ -265,6 +270,63 @@ def switch_cases(fn, selector="get_kind"):
                 break
         groups.append((labels, stmts))
     return groups
+
+
+def _sliced_cases(fn):
+    from .. import facts as _facts
+    from ..inline import KindSlicer
+    from .exprlaws import size_table
+    F = _facts.CURRENT
+    if F is None:
+        return None
+    subject = "this" if (fn.get("cls") or "").endswith("expression_t") else None
+    try:
+        sl = KindSlicer(F, fn, subject=subject, stop=(fn["name"],))
+        tab, _ = size_table(F)
+    except Exception:
+        return None
+    import json
+
+    def ser(x):
+        def clean(n):
+            if isinstance(n, list):
+                return [clean(y) for y in n]
+            if isinstance(n, dict):
+                return {k: clean(v) for k, v in n.items() if k not in ("l", "id")}
+            return n
+        return json.dumps(clean(x), sort_keys=True, default=str)
+    per = {}
+    for K in sorted(tab):
+        try:
+            body = sl.slice(K)
+        except Exception:
+            return None
+        ss = body.get("s", []) if isinstance(body, dict) and body.get("k") == "block" else [body]
+        ss = [x for x in ss if isinstance(x, dict) and x.get("k") != "decided"]
+        per[K] = (ss, [ser(x) for x in ss])
+    # what every kind executes first (the empty test, the loop over the operands, a local holding the kind) is not part
+    # of any clause
+    keys = list(per)
+    pre = 0
+    while all(len(per[k_][1]) > pre for k_ in keys) and len({per[k_][1][pre] for k_ in keys}) == 1:
+        pre += 1
+    groups, order = {}, []
+    for K in keys:
+        ss, sr = per[K]
+        key = "\n".join(sr[pre:])
+        if key not in groups:
+            groups[key] = ([], ss[pre:])
+            order.append(key)
+        groups[key][0].append(K)
+    if len(order) < 2:
+        return None
+    # the largest group plays the role of `default`
+    big = max(order, key=lambda k_: len(groups[k_][0]))
+    out = []
+    for k_ in order:
+        labels, ss = groups[k_]
+        out.append(((labels + ["default"]) if k_ == big else labels, ss))
+    return out
 
 
 def run_writekinds(chk, F, G_, parts=("collect", "lvalue")):
